@@ -502,6 +502,15 @@ def monitorCall (cfg : Cfg) (m : MonSt) (name : String) (ln : Nat) (op : List St
              r.viol s!"C08 refused_send_keeps_id@{site}" s!"{here}: the send was refused ({evS}) but identifier {id}, obtained for it and owned by no exchange, is still in use and no NotifyPacketIdReleased was issued" else r
          | none => r)
       | _, _ => r
+    -- C10: the call that starts a new session leaves nothing of the old one
+    let r := if newSession ∧ !Mon.hasError evs then
+        let idMax := 256 ^ cfg.pw - 1
+        let allFree : Bool := match after with | [iv] => iv.lo = 1 ∧ iv.hi = idMax | _ => false
+        let left := (if storeIds (g "store") ≠ [] then ["store"] else []) ++
+          (["puback", "pubrec", "pubcomp", "h2"].filter fun k => g k ≠ "") ++ (if allFree then [] else ["pidfree"])
+        if !left.isEmpty then
+          r.viol s!"C10 old_session_survives@{site}" s!"{here}: this call starts a new session (clean start, or session not present), yet session state is left afterwards: {left.map fun k => s!"{k}=[{g k}]"}; events: {evS}" else r
+      else r
     -- C06
     let stB := storeIds (gp "store")
     let stA := storeIds (g "store")
